@@ -71,13 +71,15 @@ const HOLD_TIMEOUT: Duration = Duration::from_secs(30);
 // log capture: the message of the arm through which the loop ended
 // ------------------------------------------------------------------------------------------
 
-struct Cap(Arc<Mutex<Vec<String>>>);
+struct Cap(Arc<Mutex<Vec<String>>>, Arc<Mutex<Vec<String>>>);
 
-struct MsgVisitor(Option<String>);
+struct MsgVisitor(Option<String>, String);
 impl tracing::field::Visit for MsgVisitor {
     fn record_debug(&mut self, field: &tracing::field::Field, value: &dyn std::fmt::Debug) {
         if field.name() == "message" {
             self.0 = Some(format!("{value:?}"));
+        } else {
+            self.1.push_str(&format!(" {}={value:?}", field.name()));
         }
     }
     fn record_str(&mut self, field: &tracing::field::Field, value: &str) {
@@ -99,9 +101,11 @@ impl tracing::Subscriber for Cap {
     fn record(&self, _: &tracing::span::Id, _: &tracing::span::Record<'_>) {}
     fn record_follows_from(&self, _: &tracing::span::Id, _: &tracing::span::Id) {}
     fn event(&self, ev: &tracing::Event<'_>) {
-        let mut v = MsgVisitor(None);
+        let mut v = MsgVisitor(None, String::new());
         ev.record(&mut v);
         if let Some(m) = v.0 {
+            // debugging aid (C07_LOOP_TRAP): the whole history with the other fields
+            self.1.lock().unwrap().push(format!("{m}{}", v.1));
             self.0.lock().unwrap().push(m);
         }
     }
@@ -333,7 +337,7 @@ async fn quiesce(st: &mut St, r: &mut Remote, min_wait: Duration, max_wait: Dura
         } else {
             idle += 1;
         }
-        if idle >= 5 || start.elapsed() > max_wait {
+        if idle >= 8 || start.elapsed() > max_wait {
             break;
         }
     }
@@ -411,7 +415,10 @@ pub fn run_loop(case: &mut [u64]) -> Vec<u64> {
         }
     }
     let msgs = Arc::new(Mutex::new(Vec::<String>::new()));
-    let _guard = tracing::subscriber::set_default(Cap(msgs.clone()));
+    let history = Arc::new(Mutex::new(Vec::<String>::new()));
+    let _guard = tracing::subscriber::set_default(Cap(msgs.clone(), history.clone()));
+    let trap = std::env::var("C07_LOOP_TRAP").is_ok();
+    let mut pend_seen = 0u64;
     let rt = tokio::runtime::Builder::new_current_thread().enable_all().build().unwrap();
     let tr = tr & 3;
     // exit messages of the transport in source order, and the arm (1 no permit, 2 error, 3 end of stream,
@@ -762,6 +769,16 @@ pub fn run_loop(case: &mut [u64]) -> Vec<u64> {
                         arm = exit_arms.get(ix).copied().unwrap_or(99);
                     }
                 }
+            }
+            if (op == 1 || op == 2) && b == 4 && rc == 0 && state_before == 0 {
+                pend_seen += 1;
+            }
+            history.lock().unwrap().push(format!("-- end of op {k} {:?} rc {rc} state {} arm {arm}", &case[base..base + 4], st.state));
+            if trap && state_before == 0 && st.state != 0 && arm == 5 && pend_seen > 0 {
+                eprintln!("TRAP: `None` command with a negotiation pending; case {:?}\n{}", &case[..], history.lock().unwrap().join("\n"));
+            }
+            if std::env::var("C07_LOOP_DEBUG").is_ok() {
+                eprintln!("op {k} {:?} rc {rc} state {} arm {arm} log {:?}", &case[base..base + 4], st.state, msgs.lock().unwrap());
             }
             case[base + 4] = arm;
             tr_out.extend([rc, early_done, early_mgr]);
